@@ -248,6 +248,13 @@ def _walk_patterns(p, f):
 
 def check_stablehlo(text, dump):
     """Parse the real text back and compare with the graph.  Returns (failures, stats)."""
+    try:
+        return _check_stablehlo(text, dump)
+    except RecursionError:
+        return [("tree_iso:cyclic-binding", "reference chain does not terminate")], dict(alias_same_type=0, nodes=0)
+
+
+def _check_stablehlo(text, dump):
     fails = []
     stats = dict(alias_same_type=0, nodes=0)
     try:
@@ -307,13 +314,19 @@ def check_stablehlo(text, dump):
         except Fail as f:
             first = f
         name = p.get("ref") if "ref" in p else p.get("bind")
-        if name is not None and name not in dup_refs and nodes[like_ix]["ref"] == name:
-            raise first  # the operand IS the graph's like; the defect lies deeper
+        if first.sig.startswith("tree_iso:ref-alias"):
+            raise first
+        if name is None or (name not in dup_refs and nodes[like_ix]["ref"] == name):
+            raise first  # the operand IS the graph's like (inline or by its unique name); the defect lies deeper
         # not the same node: find which graph node the operand denotes and compare element types
         got = denoted(p)
         if got is not None and _elem_type(dump, got) == _elem_type(dump, like_ix) and nodes[got]["cplx"] == nodes[like_ix]["cplx"]:
             stats["alias_same_type"] += 1
             return
+        if name in dup_refs:
+            raise Fail("tree_iso:ref-alias", f"${name} names {len(dup_refs[name])} distinct nodes "
+                       f"({', '.join(describe(i) for i in dup_refs[name][:3])}); consequence: {ctxname} is attached to {describe(got)} "
+                       f"but the graph's like is {describe(like_ix)}")
         raise Fail("tree_iso:constant-like-wrong-element-type",
                    f"{ctxname}: operand denotes {describe(got)} but the graph's like is {describe(like_ix)} [{first.detail[:80]}]")
 
@@ -341,18 +354,25 @@ def check_stablehlo(text, dump):
                     continue
         return cands[0] if cands else None
 
+    active = set()
+
     def match(p, ix):
         key = (id(p), ix)
         if key in memo:
             if memo[key] is not True:
                 raise memo[key]
             return
+        if key in active:
+            raise Fail("tree_iso:cyclic-binding", "a name is bound in terms of itself")
+        active.add(key)
         try:
             _match(p, ix)
             memo[key] = True
         except Fail as f:
             memo[key] = f
             raise
+        finally:
+            active.discard(key)
 
     def _match(p, ix):
         n = nodes[ix]
@@ -641,6 +661,13 @@ def _target_type(ty, table):
 
 
 def check_xla(text, dump):
+    try:
+        return _check_xla(text, dump)
+    except RecursionError:
+        return [("tree_iso:cyclic-definition", "variable definitions do not terminate")], dict(alias_same_type=0, nodes=0)
+
+
+def _check_xla(text, dump):
     fails = []
     stats = dict(alias_same_type=0, nodes=0)
     try:
@@ -752,18 +779,25 @@ def check_xla(text, dump):
                     continue
         return None
 
+    active = set()
+
     def match(e, ix, alt, top=False):
         key = (id(e), ix, alt, top)
         if key in memo:
             if memo[key] is not True:
                 raise memo[key]
             return
+        if key in active:
+            raise Fail("tree_iso:cyclic-definition", "a variable is defined in terms of itself")
+        active.add(key)
         try:
             _match(e, ix, alt, top)
             memo[key] = True
         except Fail as f:
             memo[key] = f
             raise
+        finally:
+            active.discard(key)
 
     def match_var(name, ix, alt):
         n = nodes[ix]
@@ -863,6 +897,8 @@ def check_xla(text, dump):
             return
         except Fail as f:
             first = f
+        if first.sig.startswith("tree_iso:ref-alias"):
+            raise first
         if lv[1] not in dup_refs and nodes[like_ix]["ref"] == lv[1] and (lv[1] in assigned or lv[1] in params):
             raise first  # the variable IS the graph's like; the defect lies deeper
         got = var_node(lv[1])
@@ -873,6 +909,10 @@ def check_xla(text, dump):
         if got is not None and _elem_type(dump, got) == _elem_type(dump, like_ix) and nodes[got]["cplx"] == nodes[like_ix]["cplx"]:
             stats["alias_same_type"] += 1
             return
+        if lv[1] in dup_refs:
+            raise Fail("tree_iso:ref-alias", f"`{lv[1]}` names {len(dup_refs[lv[1]])} distinct nodes "
+                       f"({', '.join(describe(i) for i in dup_refs[lv[1]][:3])}); consequence: {what} is attached to {describe(got)} "
+                       f"but the graph's like is {describe(like_ix)}")
         raise Fail("tree_iso:constant-like-wrong-element-type",
                    f"{what}: ScalarLike({lv[1]}, ..) where {lv[1]} is {describe(got)} but the graph's like is {describe(like_ix)} [{first.detail[:80]}]")
 
@@ -999,5 +1039,9 @@ def check_xla(text, dump):
             except Fail as f:
                 last = f
         if not ok and last is not None and (last.sig, last.detail) not in fails:
-            fails.append((last.sig, last.detail))
+            if st["var"] in dup_refs and not last.sig.startswith("tree_iso:ref-alias"):
+                last = Fail("tree_iso:ref-alias", f"`{st['var']}` names {len(dup_refs[st['var']])} distinct nodes "
+                            f"({', '.join(describe(i) for i in dup_refs[st['var']][:3])}); consequence: {last.sig}: {last.detail[:160]}")
+            if (last.sig, last.detail) not in fails:
+                fails.append((last.sig, last.detail))
     return fails, stats
